@@ -216,6 +216,8 @@ def parse_operand(o):
         if m:
             return ('const', ('float', body))
         return ('const', ('item', body))
+    if re.match(r"^[A-Za-z<][\w:<>, &'\[\]()-]*$", o) and not re.match(r'^_\d+', o):
+        return ('const', ('item', o))         # a function item passed by name (`iter.all(is_definition_target)`)
     raise ValueError('operand %r' % o)
 
 
